@@ -1,7 +1,7 @@
 CONSTANTS
   Mode = "parse"
   Level = "full"
-  Depth = 3
+  Depth = 4
   MaxNest = 1
   MaxCalls = 1
   MaxKw = 1
